@@ -110,12 +110,13 @@ func (mp MultiPolygon) Len() int {
 func (mp MultiPolygon) Points() func() Point {
 	var i, j, k int
 	return func() Point {
-		if i == len(mp[k][j]) {
-			j++
-			i = 0
+		for j == len(mp[k]) || i == len(mp[k][j]) {
 			if j == len(mp[k]) {
 				k++
 				j = 0
+			} else {
+				j++
+				i = 0
 			}
 		}
 		i++
